@@ -9,6 +9,12 @@
 //       installed and reports every logged outer iteration, the returned state and the constraints recomputed
 //       from the problem data.
 //
+//   ps solve <lin|quad> <n> <obj> <ncons> <cons>… <x0> <eps> <max_evals> <eta> <epsilon0> <epsilonK> <penalty0> <max_outers>
+//       runs solver_linear_penalty_t / solver_quadratic_penalty_t with the trace hooks `penalty.outer`, `solver.done`
+//       installed and reports every logged outer iteration (penalty parameter, decisions, bstate.x, the value the inner
+//       solver reported), the returned state and the constraints recomputed from the problem data; the objective and the
+//       constraints evaluated at every valid inner-solver answer are appended to the op for the model.
+//
 //   <obj>  = S <id> | Q <Q:list n*n> <c:list n> | QP <Q> <c> | LP <c>     (QP/LP go through nano::make_function(program))
 //   <cons> = const|min|max <value> <dim> | balleq|ballin <origin:list> <radius> | lineq|linin <q:list> <r>
 //          | quadeq|quadin <rows> <cols> <P:list> <q:list> <r> | feq|fin <F>
@@ -20,6 +26,7 @@
 #include <nano/function/penalty.h>
 #include <nano/function/program.h>
 #include <nano/solver/augmented.h>
+#include <nano/solver/penalty.h>
 #include <nano/verif.h>
 
 using namespace nano;
@@ -466,14 +473,27 @@ struct record_t
 
 thread_local std::vector<record_t>* g_records = nullptr;
 
+// true until the first `lsearch.begin` / `osga.iter` record after the start of the run or after an outer-loop record:
+// that record shows the point the (next) inner solve was started at
+thread_local bool g_want_start = false;
+
 void sink(const char* tag, const double* values, const size_t count)
 {
     if (g_records != nullptr)
     {
         const std::string t = tag;
-        if (t == "augmented.outer" || t == "augmented.return" || t == "solver.done")
+        if (t == "augmented.outer" || t == "augmented.return" || t == "solver.done" || t == "penalty.outer")
         {
             g_records->push_back(record_t{t, dvec(values, values + count)});
+            if (t == "penalty.outer" || t == "augmented.outer")
+            {
+                g_want_start = true;
+            }
+        }
+        else if (g_want_start && (t == "lsearch.begin" || t == "osga.iter"))
+        {
+            g_records->push_back(record_t{t, dvec(values, values + count)});
+            g_want_start = false;
         }
     }
 }
@@ -509,6 +529,10 @@ struct outer_t
     double outer, ro, epsilon, iter_ok, criterion, old_criterion, converged, xconv;
     dvec   lambda, miu, cx, cceq, ccineq, bx, bceq, bcineq;
     double bvalid{-1};
+    bool   has_sx{false};  // the inner solver iterated at least once: sx = the point it started at
+    dvec   sx;
+    bool   has_cfx{false}; // the inner solver's last `solver.done` is at cstate.x(): cfx = the value it reports there
+    double cfx{0};
 };
 
 // values of the constraints recomputed from the op's coefficients with plain loops (independent of constraint.cpp)
@@ -588,6 +612,35 @@ void recompute(const problem_t& p, const dvec& x, dvec& h, dvec& g)
     }
 }
 
+// `<valid> <gx> <k> (<is_eq> <gc>)*k`: what `update_constraints` reads when it accumulates m_lgx at the returned point
+// (the objective's gradient stored in the state, every constraint's gradient from the same call it makes)
+void dump_state_gradients(const function_t& function, const solver_state_t& state, out_t& out)
+{
+    out << (state.valid() ? 1 : 0);
+    out.flist(to_dvec(state.gx()));
+    out << static_cast<long long>(function.constraints().size());
+    for (const auto& constraint : function.constraints())
+    {
+        vector_t gc(state.x().size());
+        ::nano::vgrad(constraint, state.x(), gc);
+        out << (is_equality(constraint) ? 1 : 0);
+        out.flist(to_dvec(gc));
+    }
+}
+
+// test3, test4, test5 of a state (they expose m_mineq, m_lgx, which have no accessor); `-` for an invalid state
+void print_kkt345(const solver_state_t& state, out_t& out)
+{
+    if (state.valid())
+    {
+        out << state.kkt_optimality_test3() << state.kkt_optimality_test4() << state.kkt_optimality_test5();
+    }
+    else
+    {
+        out << "-" << "-" << "-";
+    }
+}
+
 std::string op_al_solve(toks_t& toks, std::string& aug)
 {
     problem_t p;
@@ -622,6 +675,7 @@ std::string op_al_solve(toks_t& toks, std::string& aug)
 
     std::vector<record_t> records;
     g_records                    = &records;
+    g_want_start                 = true;
     nano::verif::trace_sink()    = &sink;
     const auto          logger   = make_null_logger();
     solver_state_t      state;
@@ -643,12 +697,40 @@ std::string op_al_solve(toks_t& toks, std::string& aug)
     std::vector<outer_t> outers;
     dvec                 ret;
     bool                 pending = false;
+    bool                 has_sx  = false;
+    dvec                 sx;
+    const dvec*          inner_done = nullptr;
     for (const auto& rec : records)
     {
-        if (rec.m_tag == "augmented.outer")
+        if (rec.m_tag == "lsearch.begin")
+        {
+            reader_t r{rec.m_values};
+            sx     = r.vec();
+            has_sx = true;
+        }
+        else if (rec.m_tag == "osga.iter")
+        {
+            reader_t r{rec.m_values};
+            r.scalar();
+            r.scalar();
+            r.scalar();
+            r.scalar();
+            r.vec();
+            r.vec();
+            sx     = r.vec();
+            has_sx = true;
+        }
+        else if (rec.m_tag == "solver.done" && !pending)
+        {
+            inner_done = &rec.m_values;
+        }
+        else if (rec.m_tag == "augmented.outer")
         {
             reader_t r{rec.m_values};
             outer_t  o;
+            o.has_sx = has_sx;
+            o.sx     = sx;
+            has_sx   = false;
             o.outer         = r.scalar();
             o.ro            = r.scalar();
             o.epsilon       = r.scalar();
@@ -665,6 +747,24 @@ std::string op_al_solve(toks_t& toks, std::string& aug)
             o.bx            = r.vec();
             o.bceq          = r.vec();
             o.bcineq        = r.vec();
+            if (inner_done != nullptr)
+            {
+                // iter_ok, converged, valid, fx, gradient test, fcalls, gcalls, x, gx
+                reader_t d{*inner_done};
+                d.scalar();
+                d.scalar();
+                d.scalar();
+                const auto dfx = d.scalar();
+                d.scalar();
+                d.scalar();
+                d.scalar();
+                if (d.vec() == o.cx && std::isfinite(dfx))
+                {
+                    o.has_cfx = true;
+                    o.cfx     = dfx;
+                }
+                inner_done = nullptr;
+            }
             outers.push_back(o);
             pending = true;
         }
@@ -713,7 +813,12 @@ std::string op_al_solve(toks_t& toks, std::string& aug)
         a.flist(o.cx);
         a.flist(o.cceq);
         a.flist(o.ccineq);
+        // the objective at the answer (the model rebuilds the augmented Lagrangian the inner solver was given from it)
+        const auto with_obj = o.has_cfx && o.iter_ok != 0.0;
+        a << (o.has_sx ? 1 : 0) << (with_obj ? 1 : 0);
+        a << (with_obj ? function.vgrad(to_vector(o.cx)) : std::numeric_limits<double>::quiet_NaN());
     }
+    dump_state_gradients(function, state, a);
     aug += " " + a.str();
 
     out_t out;
@@ -736,11 +841,28 @@ std::string op_al_solve(toks_t& toks, std::string& aug)
         out.flist(o.bx);
         out.flist(o.bceq);
         out.flist(o.bcineq);
+        if (o.has_sx)
+        {
+            out.flist(o.sx);
+        }
+        else
+        {
+            out << "-";
+        }
+        if (o.has_cfx && o.iter_ok != 0.0)
+        {
+            out << o.cfx;
+        }
+        else
+        {
+            out << "-";
+        }
     }
     out.flist(rx);
     out.flist(rceq);
     out.flist(rcineq);
     out << std::max(state.kkt_optimality_test1(), state.kkt_optimality_test2());
+    print_kkt345(state, out);
 
     // tolerant section: numbers that involve Eigen reductions
     out << "~" << outers.front().ro;
@@ -767,6 +889,247 @@ std::string op_al_solve(toks_t& toks, std::string& aug)
     out.flist(g);
     return out.str();
 }
+// ---- ps solve -----------------------------------------------------------------------------------------------
+struct pouter_t
+{
+    double outer, penalty, epsilon, iter_ok, xconv, cfx;
+    dvec   cx, bx;
+    double bvalid{-1};
+    double dconv{-1}; // the `converged` argument `done` was called with
+    bool   has_sx{false}; // the inner solver iterated at least once: sx = the point it started at
+    dvec   sx;
+};
+
+// `<k> (<is_eq> <fc>)*k`: every accepted constraint evaluated at x (the same call penalty_vgrad makes)
+void dump_constraints(const function_t& function, const vector_t& x, out_t& out)
+{
+    out << static_cast<long long>(function.constraints().size());
+    for (const auto& constraint : function.constraints())
+    {
+        vector_t   gc(x.size());
+        const auto fc = ::nano::vgrad(constraint, x, gc);
+        out << (is_equality(constraint) ? 1 : 0) << fc;
+    }
+}
+
+std::string op_ps_solve(toks_t& toks, std::string& aug)
+{
+    const auto which = toks.s();
+    if (which != "lin" && which != "quad")
+    {
+        throw bad_op("ps solve: lin or quad");
+    }
+    problem_t p;
+    parse_problem(toks, p, true);
+    const auto x0s        = toks.fs();
+    const auto eps        = toks.f();
+    const auto max_evals  = toks.i64();
+    const auto eta        = toks.f();
+    const auto epsilon0   = toks.f();
+    const auto epsilonK   = toks.f();
+    const auto penalty0   = toks.f();
+    const auto max_outers = toks.i64();
+    if (!toks.done() || static_cast<int64_t>(x0s.size()) != p.m_n)
+    {
+        throw bad_op("ps solve arguments");
+    }
+    const auto& function = *p.m_function;
+    const auto  x0       = to_vector(x0s);
+
+    rsolver_t solver;
+    if (which == "lin")
+    {
+        solver = std::make_unique<solver_linear_penalty_t>();
+    }
+    else
+    {
+        solver = std::make_unique<solver_quadratic_penalty_t>();
+    }
+    solver->parameter("solver::epsilon")                  = eps;
+    solver->parameter("solver::max_evals")                = max_evals;
+    solver->parameter("solver::penalty::eta")             = eta;
+    solver->parameter("solver::penalty::epsilon0")        = epsilon0;
+    solver->parameter("solver::penalty::epsilonK")        = epsilonK;
+    solver->parameter("solver::penalty::penalty0")        = penalty0;
+    solver->parameter("solver::penalty::max_outer_iters") = max_outers;
+
+    std::vector<record_t> records;
+    g_records                  = &records;
+    g_want_start               = true;
+    nano::verif::trace_sink()  = &sink;
+    const auto     logger      = make_null_logger();
+    solver_state_t state;
+    try
+    {
+        state = solver->minimize(function, x0, logger);
+    }
+    catch (...)
+    {
+        nano::verif::trace_sink() = nullptr;
+        g_records                 = nullptr;
+        throw;
+    }
+    nano::verif::trace_sink() = nullptr;
+    g_records                 = nullptr;
+
+    // split the log: a `penalty.outer` record with iter_ok is followed (after bstate.update) by the outer loop's own
+    // `solver.done`; the inner solver's `solver.done` records all precede the `penalty.outer` of their iteration
+    std::vector<pouter_t> outers;
+    bool                  pending = false;
+    bool                  has_sx  = false;
+    dvec                  sx;
+    for (const auto& rec : records)
+    {
+        if (rec.m_tag == "lsearch.begin")
+        {
+            // x, gx, fx, descent, last step size
+            reader_t r{rec.m_values};
+            sx     = r.vec();
+            has_sx = true;
+        }
+        else if (rec.m_tag == "osga.iter")
+        {
+            // alpha, eta, gamma, fb, h, u, xb
+            reader_t r{rec.m_values};
+            r.scalar();
+            r.scalar();
+            r.scalar();
+            r.scalar();
+            r.vec();
+            r.vec();
+            sx     = r.vec();
+            has_sx = true;
+        }
+        else if (rec.m_tag == "penalty.outer")
+        {
+            if (pending)
+            {
+                throw bad_op("penalty.outer without the solver.done of the previous iteration");
+            }
+            reader_t r{rec.m_values};
+            pouter_t o;
+            o.has_sx = has_sx;
+            o.sx     = sx;
+            has_sx   = false;
+            o.outer   = r.scalar();
+            o.penalty = r.scalar();
+            o.epsilon = r.scalar();
+            o.iter_ok = r.scalar();
+            o.xconv   = r.scalar();
+            o.cx      = r.vec();
+            o.cfx     = r.scalar();
+            o.bx      = r.vec();
+            outers.push_back(o);
+            pending = o.iter_ok != 0.0;
+        }
+        else if (rec.m_tag == "solver.done" && pending)
+        {
+            auto& o = outers.back();
+            if (rec.m_values.size() < 3 || rec.m_values[0] != 1.0)
+            {
+                throw bad_op("solver.done does not match penalty.outer");
+            }
+            o.dconv  = rec.m_values[1];
+            o.bvalid = rec.m_values[2];
+            pending  = false;
+        }
+    }
+    if (pending)
+    {
+        throw bad_op("incomplete trace");
+    }
+
+    // oracle answers for the model
+    out_t a;
+    a << "|";
+    dump_constraints(function, x0, a);
+    a << static_cast<long long>(outers.size());
+    for (const auto& o : outers)
+    {
+        a << static_cast<long long>(o.iter_ok) << static_cast<long long>(o.iter_ok != 0.0 ? o.bvalid : 0.0);
+        a << (o.has_sx ? 1 : 0);
+        a.flist(o.cx);
+        a << o.cfx;
+        if (o.iter_ok != 0.0)
+        {
+            const auto cx = to_vector(o.cx);
+            a << function.vgrad(cx);
+            dump_constraints(function, cx, a);
+        }
+        else
+        {
+            a << std::numeric_limits<double>::quiet_NaN() << 0LL;
+        }
+    }
+    dump_state_gradients(function, state, a);
+    aug += " " + a.str();
+
+    const auto rx     = to_dvec(state.x());
+    const auto rceq   = to_dvec(state.ceq());
+    const auto rcineq = to_dvec(state.cineq());
+
+    out_t out;
+    out << "ok" << static_cast<long long>(state.status()) << static_cast<long long>(outers.size());
+    for (const auto& o : outers)
+    {
+        out << o.penalty << static_cast<long long>(o.iter_ok);
+        if (o.iter_ok != 0.0)
+        {
+            out << static_cast<long long>(o.xconv) << static_cast<long long>(o.dconv);
+        }
+        else
+        {
+            out << "-" << "-";
+        }
+        out.flist(o.bx);
+        if (o.has_sx)
+        {
+            out.flist(o.sx);
+        }
+        else
+        {
+            out << "-";
+        }
+        if (o.iter_ok != 0.0)
+        {
+            out << o.cfx;
+        }
+        else
+        {
+            out << "-";
+        }
+    }
+    out.flist(rx);
+    print_kkt345(state, out);
+
+    // tolerant section: numbers that involve Eigen reductions
+    out << "~";
+    out.flist(rceq);
+    out.flist(rcineq);
+    out << state.kkt_optimality_test1() << state.kkt_optimality_test2();
+
+    // for the property oracle only (not compared with the model)
+    dvec h;
+    dvec g;
+    bool functional = false;
+    for (size_t k = 0; k < p.m_cons.size(); ++k)
+    {
+        functional = functional || (p.m_accepted[k] != 0 && (p.m_cons[k].m_kind == "feq" || p.m_cons[k].m_kind == "fin"));
+    }
+    if (!functional)
+    {
+        recompute(p, rx, h, g);
+    }
+    out << "!" << eps << (state.valid() ? 1 : 0) << state.fx() << (functional ? 0 : 1);
+    out.flist(h);
+    out.flist(g);
+    for (const auto& o : outers)
+    {
+        out << static_cast<long long>(o.outer) << o.epsilon << static_cast<long long>(o.xconv);
+        out.flist(o.cx);
+    }
+    return out.str();
+}
 } // namespace
 
 std::string vh::execute(toks_t& toks, std::string& aug)
@@ -780,6 +1143,10 @@ std::string vh::execute(toks_t& toks, std::string& aug)
     if (fam == "al" && op == "solve")
     {
         return op_al_solve(toks, aug);
+    }
+    if (fam == "ps" && op == "solve")
+    {
+        return op_ps_solve(toks, aug);
     }
     throw bad_op("unknown op " + fam + " " + op);
 }
